@@ -265,8 +265,12 @@ func parseRaceLogs(prefix string) (reports []raceReport, total int) {
 				}
 			}
 			inKanzi := false
+			repoRoot := os.Getenv("REPO_ROOT")
+			if repoRoot == "" {
+				repoRoot = "/repo"
+			}
 			for _, ln := range strings.Split(text, "\n") {
-				if strings.Contains(ln, "/repo/v2/") && !strings.Contains(ln, "verif_on.go") {
+				if strings.Contains(ln, repoRoot+"/v2/") && !strings.Contains(ln, "verif_on.go") {
 					inKanzi = true
 				}
 			}
